@@ -287,6 +287,16 @@ _DYN_SCHED = 0
 DYN_SCHED_CAP = 2  # per worker chunk: schedule explorations triggered by a non-empty write set
 
 
+def _selffp(o):
+    """fingerprint for comparing one object with itself at two moments (C pickler; falls back to the canonical walk)"""
+    import pickle
+
+    try:
+        return pickle.dumps(o, 5)
+    except Exception:
+        return deepfp_str(o)
+
+
 def run_hist(case, res):
     key = case["key"]
     wrote_object = False
@@ -295,13 +305,13 @@ def run_hist(case, res):
         return
     res.nontrivial = 1
     g0 = globals_fp()
-    f0 = deepfp_str(o)
-    res.states.append(h64(f0))
+    f0 = _selffp(o)
+    res.states.append(h64(deepfp_str(o)))
     for r in RNAMES:
         fn = ROPS[r]
         ref = fn(build(key))
         out1 = fn(o)
-        f1 = deepfp_str(o)
+        f1 = _selffp(o)
         out2 = fn(o)
         res.transitions += 3
         res.outcomes.append(h64(repr(out1)))
@@ -340,7 +350,7 @@ def run_hist(case, res):
                 wrote_object = True
                 res.extra["unobservable_object_writes"] = res.extra.get("unobservable_object_writes", 0) + 1
                 res.extra.setdefault("object_write_sites", set()).add("%s|%s|%s" % (_tname(o), opclass(r), ",".join(ch)))
-            f0 = deepfp_str(o)
+            f0 = _selffp(o)
     # transient writes: a render function that stores into some object (other than via the Parameterizer / a fresh
     # context copy).  Such objects are handed to the scheduler below even if nothing differs afterwards.
     d_own = key[0].split(":")[1] if key[0].startswith(("qb:", "setop:")) else "generic"
